@@ -692,10 +692,21 @@ def _is_expression_pattern(pattern: str) -> bool:
     # - Variable comparisons like amount > 500, month == 12, source == "Amex"
     function_pattern = r'^(contains|normalized|anyof|startswith|fuzzy|regex|extract|split|substring|trim|exists)\s*\('
     variable_pattern = r'^(amount|month|year|day|source|description)\s*[<>=!]'
-    return bool(re.match(function_pattern, pattern)) or \
+    if bool(re.match(function_pattern, pattern)) or \
            bool(re.match(variable_pattern, pattern)) or \
            pattern.startswith('field.') or \
-           ' and ' in pattern or ' or ' in pattern or pattern.startswith('(')
+           ' and ' in pattern or ' or ' in pattern:
+        return True
+    if pattern.startswith('('):
+        # "(123)", "(1)" or "(source)" is a regex group around a word, not a condition:
+        # a parenthesized pattern is an expression only if it says something about the transaction
+        import ast
+        try:
+            body = ast.parse(pattern.strip(), mode='eval').body
+        except (SyntaxError, ValueError):
+            return True  # let the expression parser reject it (falls back to regex matching)
+        return not isinstance(body, (ast.Constant, ast.Name))
+    return False
 
 
 def _resolve_dynamic_tags(
